@@ -608,7 +608,7 @@ impl NetcodeServer {
         self.current_time += duration;
 
         for client in self.pending_clients.values_mut() {
-            if self.current_time.as_secs() > client.expire_timestamp {
+            if self.current_time.as_secs() >= client.expire_timestamp {
                 log::debug!("Pending Client {} disconnected, connection token expired.", client.client_id);
                 client.state = ConnectionState::Disconnected;
             }
